@@ -237,6 +237,7 @@ def step(line):
 # sentence layer
 # ------------------------------------------------------------------------------------------------
 import io
+import os
 from decimal import Decimal as _D
 from fractions import Fraction
 
@@ -1551,7 +1552,43 @@ def _twice(fn):
 _step1 = step
 
 
+_NOISE = []
+
+
+def _start_noise():
+    """Another thread of the application decodes, encodes and parses all the time (VERIF_NOISE=1): what the observed
+    calls return does not depend on it."""
+    import threading
+    lines = [b'!AIVDM,1,1,,A,15M67FC000G?ufbE`FepT@3n00Sa,0*5C', b'!AIVDM,1,1,,B,B52KB8h006fu`Q6:g1McCwb5oP06,0*00',
+             b'!AIVDM,2,1,1,A,55?MbV02;H;s<HtKR20EHE:0@T4@Dn2222222216L961O5Gf0NSQEp6ClRp8,0*1C']
+
+    def work():
+        i = 0
+        while True:
+            i += 1
+            try:
+                pyais.decode(lines[i % 2])
+                M.NMEASentenceFactory.produce(lines[2])
+                if i % 7 == 0:
+                    ENC.encode_dict({'type': 1, 'mmsi': i % 1000})
+            except Exception:  # noqa
+                pass
+    t = threading.Thread(target=work, daemon=True)
+    t.start()
+    _NOISE.append(t)
+
+
 def step(line):  # noqa: F811
+    if not _NOISE and os.environ.get('VERIF_NOISE') == '1':
+        _start_noise()
+    import decimal
+    with decimal.localcontext() as dctx:
+        # the application around the library may have set the decimal context to its own needs
+        dctx.rounding = decimal.ROUND_DOWN
+        return _step_outer(line)
+
+
+def _step_outer(line):
     try:
         r = step2(line)
         if r is not None:
